@@ -1003,14 +1003,26 @@ func (s *Session) runOutputOncePacket() {
 // them in the receive buffer and receive queue.
 func (s *Session) input(seg *segment) error {
 	protocol := seg.Protocol()
+	wrongDirection := false
 	if s.isClient {
 		if protocol != openSessionResponse && protocol != dataServerToClient && protocol != dataServerToClientLowEntropy && protocol != ackServerToClient && protocol != closeSessionRequest && protocol != closeSessionResponse {
-			return stderror.ErrInvalidArgument
+			wrongDirection = true
 		}
 	} else {
 		if protocol != openSessionRequest && protocol != dataClientToServer && protocol != dataClientToServerLowEntropy && protocol != ackClientToServer && protocol != closeSessionRequest && protocol != closeSessionResponse {
-			return stderror.ErrInvalidArgument
+			wrongDirection = true
 		}
+	}
+	if wrongDirection {
+		if s.transportProtocol == common.PacketTransport {
+			// Both directions use the same key, so a datagram this endpoint
+			// has sent itself passes authentication when someone on the path
+			// sends it back. Drop it like any other datagram that is not
+			// part of the peer's stream, and keep the session.
+			log.Debugf("%v dropped %v: wrong direction", s, seg)
+			return nil
+		}
+		return stderror.ErrInvalidArgument
 	}
 
 	if seg.block != nil {
